@@ -87,9 +87,10 @@ impl<I: SendmsgSyscall> SendmsgSyscall for NioSendmsgSyscall<I> {
             }
             while sent < length && left_time > 0 {
                 if 0 != offset {
+                    // shift the caller's entry, not the copy an earlier retry already shifted
                     iov[0] = libc::iovec {
-                        iov_base: (iov[0].iov_base as usize + offset) as *mut c_void,
-                        iov_len: iov[0].iov_len - offset,
+                        iov_base: (iovec.iov_base as usize + offset) as *mut c_void,
+                        iov_len: iovec.iov_len - offset,
                     };
                 }
                 let arg = msghdr {
